@@ -302,24 +302,57 @@ func boundChecked(fn *ssa.Function, size ssa.Value, at ssa.Instruction) bool {
 	return false
 }
 
-// lenGuarded: a dominating comparison mentions len(buf) (same buffer) and has an edge not reaching the access.
+// lenGuarded: a dominating comparison mentions len(buf) (same buffer) and the position variable the
+// access is computed from, that variable is not modified between the comparison and the access, and
+// the comparison has an edge that does not reach the access.
 func lenGuarded(fn *ssa.Function, buf ssa.Value, at ssa.Instruction) bool {
 	sameBuf := func(v ssa.Value) bool {
 		if v == buf {
 			return true
 		}
-		if p1, ok := v.(*ssa.Parameter); ok {
-			p2, ok2 := buf.(*ssa.Parameter)
-			return ok2 && p1 == p2
-		}
 		return sameVal(v, buf)
+	}
+	// position variables: loads (through pointers / fields) in the access's bounds
+	var bounds []ssa.Value
+	switch x := at.(type) {
+	case *ssa.IndexAddr:
+		bounds = []ssa.Value{x.Index}
+	case *ssa.Index:
+		bounds = []ssa.Value{x.Index}
+	case *ssa.Lookup:
+		bounds = []ssa.Value{x.Index}
+	case *ssa.Slice:
+		for _, b := range []ssa.Value{x.Low, x.High} {
+			if b != nil {
+				bounds = append(bounds, b)
+			}
+		}
+	}
+	var posLoads []*ssa.UnOp
+	for _, b := range bounds {
+		derivesFrom(b, func(v ssa.Value) bool {
+			if u, ok := v.(*ssa.UnOp); ok && u.Op == token.MUL {
+				switch u.X.(type) {
+				case *ssa.Parameter, *ssa.FieldAddr:
+					if !sameBuf(u) {
+						posLoads = append(posLoads, u)
+					}
+				}
+			}
+			return false
+		})
+	}
+	sameAddr := func(a, b ssa.Value) bool {
+		if a == b {
+			return true
+		}
+		fa, ok1 := a.(*ssa.FieldAddr)
+		fb, ok2 := b.(*ssa.FieldAddr)
+		return ok1 && ok2 && fa.Field == fb.Field && sameVal(fa.X, fb.X)
 	}
 	for _, b := range fn.Blocks {
 		iff := ifOf(b)
-		if iff == nil || !b.Dominates(at.Block()) {
-			continue
-		}
-		if b == at.Block() {
+		if iff == nil || !b.Dominates(at.Block()) || b == at.Block() {
 			continue
 		}
 		mentionsLen := derivesFrom(iff.Cond, func(x ssa.Value) bool {
@@ -328,6 +361,66 @@ func lenGuarded(fn *ssa.Function, buf ssa.Value, at ssa.Instruction) bool {
 		})
 		if !mentionsLen {
 			continue
+		}
+		if len(posLoads) > 0 {
+			// the comparison must be about the same position variable, unmodified since
+			okPos := false
+			for _, pl := range posLoads {
+				mentions := derivesFrom(iff.Cond, func(x ssa.Value) bool {
+					u, ok := x.(*ssa.UnOp)
+					return ok && u.Op == token.MUL && sameAddr(u.X, pl.X)
+				})
+				if !mentions {
+					continue
+				}
+				// no store to that variable between the comparison and the access
+				modified := false
+				eachInstr(fn, func(_ *ssa.BasicBlock, _ int, ins ssa.Instruction) {
+					st, ok := ins.(*ssa.Store)
+					if !ok || !sameAddr(st.Addr, pl.X) {
+						return
+					}
+					q1 := &pathQuery{fn: fn, target: func(y ssa.Instruction) bool { return y == ins }, stop: func(y ssa.Instruction) bool { return y == at }}
+					h1, _ := q1.after(iff)
+					if h1 == nil {
+						return
+					}
+					q2 := &pathQuery{fn: fn, target: func(y ssa.Instruction) bool { return y == at }, stop: func(y ssa.Instruction) bool { return y == ssa.Instruction(iff) }}
+					if h2, _ := q2.after(ins); h2 != nil {
+						modified = true
+					}
+				})
+				// calls that advance the position through the pointer (helpers taking the offset pointer)
+				eachInstr(fn, func(_ *ssa.BasicBlock, _ int, ins ssa.Instruction) {
+					call, ok := ins.(ssa.CallInstruction)
+					if !ok {
+						return
+					}
+					passes := false
+					for _, a := range call.Common().Args {
+						if sameAddr(a, pl.X) {
+							passes = true
+						}
+					}
+					if !passes {
+						return
+					}
+					q1 := &pathQuery{fn: fn, target: func(y ssa.Instruction) bool { return y == ins }, stop: func(y ssa.Instruction) bool { return y == at }}
+					if h1, _ := q1.after(iff); h1 == nil {
+						return
+					}
+					q2 := &pathQuery{fn: fn, target: func(y ssa.Instruction) bool { return y == at }, stop: func(y ssa.Instruction) bool { return y == ssa.Instruction(iff) }}
+					if h2, _ := q2.after(ins); h2 != nil {
+						modified = true
+					}
+				})
+				if !modified {
+					okPos = true
+				}
+			}
+			if !okPos {
+				continue
+			}
 		}
 		for _, s := range b.Succs {
 			q := &pathQuery{fn: fn, target: func(x ssa.Instruction) bool { return x == at }}
